@@ -1032,8 +1032,7 @@ class Intervals:
                         # (x - y) + c with c <= y is at most x: the sum cannot overflow and is bounded by x's range
                         # (only the upper end is bounded this way: both operands must be non-negative)
                         ub = self._diff_upper(st, ta, tb) if (a is not None and b is not None and a[0] >= 0 and b[0] >= 0) else None
-                        xr = self.trng(st, ub) if ub is not None and not isinstance(ub, int) else \
-                            (st.iv.get(ub, self.tr[ub]) if ub is not None else None)
+                        xr = self._ub_range(st, ub)
                         if xr is not None and xr[1] <= otr[1]:
                             cur = st.iv[(l, 0)]
                             if xr[1] < cur[1] and cur[0] <= xr[1]:
@@ -1196,6 +1195,15 @@ class Intervals:
             ta, tb = tb, ta
         return (base, ta, tb)
 
+    def _ub_range(self, st, ub):
+        if ub is None:
+            return None
+        if isinstance(ub, tuple) and ub[0] == "C":
+            return (ub[1], ub[1])
+        if isinstance(ub, int):
+            return st.iv.get(ub, self.tr[ub])
+        return self.trng(st, ub)
+
     def _diff_upper(self, st, ta, tb):
         """for a sum ta + tb: a term x with ta + tb <= x, when one operand is a recorded difference x - y and the other is
         y itself or is known to be <= y"""
@@ -1249,14 +1257,22 @@ class Intervals:
             # `start = len - n; end = start + m`)
             ub = self._diff_upper(st, ta, tb)
             if ub is not None and ub != l:
-                self.add_rel(st, l, "<=", ub)
+                if isinstance(ub, tuple) and ub[0] == "C":
+                    self._narrow_term(st, l, (-INF, ub[1]))
+                else:
+                    self.add_rel(st, l, "<=", ub)
         elif base == "Sub":
             if rb[0] >= 1 and ta is not None and ta != l:
                 st.rel.add((l, "<", ta))
             elif rb[0] >= 0 and ta is not None and ta != l:
                 st.rel.add((l, "<=", ta))
-            if ta is not None and tb is not None and ta != l and tb != l:
-                st.diff[l] = (ta, tb)
+            xa = ta
+            if xa is None and oa is not None and oa[0] == "k":
+                ca = op_const(oa)
+                if ca and ca[1] is not None:
+                    xa = ("C", ca[1])      # a constant minuend: `available = MAX - used`
+            if xa is not None and tb is not None and xa != l and tb != l:
+                st.diff[l] = (xa, tb)
         elif base == "Mul":
             # a * b did not overflow: with b >= 1 (and a >= 0) the product is at least a
             if rb[0] >= 1 and ra[0] >= 0 and ta is not None and ta != l:
@@ -2000,7 +2016,7 @@ class Intervals:
             if base == "Add" and tr is not None and a is not None and b is not None and a[0] >= 0 and b[0] >= 0:
                 ub = self._diff_upper(st, ta, tb)
                 if ub is not None:
-                    xr = self.trng(st, ub) if not isinstance(ub, int) else st.iv.get(ub, self.tr[ub])
+                    xr = self._ub_range(st, ub)
                     if xr is not None and xr[1] <= tr[1]:
                         return True, "(x - y) + c with c <= y stays at or below x"
             if base == "Add" and tr is not None and b is not None and a is not None:
